@@ -42,3 +42,13 @@ pub mod c11;
 pub mod c15;
 #[cfg(all(kani, feature = "c16"))]
 pub mod c16;
+#[cfg(all(kani, feature = "c05"))]
+pub mod c05;
+#[cfg(all(kani, feature = "c12"))]
+pub mod c12;
+#[cfg(all(kani, feature = "c13"))]
+pub mod c13;
+#[cfg(all(kani, feature = "c14"))]
+pub mod c14;
+#[cfg(all(kani, feature = "c18"))]
+pub mod c18;
